@@ -3,6 +3,7 @@ import MpcVerif.Model.Equiv
 import MpcVerif.Model.Levels
 import MpcVerif.Model.Passes
 import MpcVerif.Model.PassesWF
+import MpcVerif.Model.LevelsWrap
 
 namespace Drv.C09
 open Mpc Drv
@@ -105,7 +106,13 @@ def circLine (c : Circuit) : String :=
 * `lvl <tag> <gmw> <nw> <nin> <nout> <gates>` → `lv=<levels>;max=<n>;width=<n>`
 * `sort <tag> <kind> <nw> <nin> <nout> <gates> <levels> <x>` → `strict=<b>;topo=<b>;g=<sorted gates>;c=<compute x>`
   (`topo`: the sorted list is single-assignment and topologically ordered, decided by `absRun`)
-  (kind `c` = Compile's sort, `g` = gmw schedule)
+  (kind `c` = Compile's sort, `g` = gmw schedule, `w<k>` = Compile's sort with a `k`-bit level field,
+  `compileSortW k`)
+* `topo <tag> <nw> <nin> <nout> <gates>` → `ssa=<b>`: the proved checker `absRun` (C09_absRun_ssa) accepts the
+  circuit as single-assignment and topologically ordered (run on the REAL compiled circuit of every configuration)
+* `chain <tag> <k>` → the witness of C09_wrapped_levels_not_topological / _wrong_output executed:
+  `topo=<b>;g=<gates of invChain (2^k+1) sorted with a k-bit level field>;c=<output on x = 1>;ref=<invChain output>`
+Circuits are evaluated by `Circuit.computeArr` (= `Circuit.compute`, C09_computeArr_eq).
 -/
 def handle (args : List String) : String :=
   match args with
@@ -114,8 +121,8 @@ def handle (args : List String) : String :=
     | some c, some c', some w1, some w2 =>
       let diag := checkRefinesDiag c c' w1 w2
       let xl := if xs == "-" then [] else (xs.splitOn ",").map parseBits
-      let o1 := ",".intercalate (xl.map fun x => bitsStr (c.compute x))
-      let o2 := ",".intercalate (xl.map fun x => bitsStr (c'.compute x))
+      let o1 := ",".intercalate (xl.map fun x => bitsStr (c.computeArr x))
+      let o2 := ",".intercalate (xl.map fun x => bitsStr (c'.computeArr x))
       s!"chk={diag};c={o1};c2={o2}"
     | _, _, _, _ => "bad-op"
   | ["pass", _tag, kind, nin, zero, one, outs, wires, gates] =>
@@ -142,10 +149,24 @@ def handle (args : List String) : String :=
     | some c, some lv =>
       let l := c.gates.zip lv.toList
       if l.length != c.gates.length then "bad-op" else
-      let s := if kind == "c" then compileSort l else gmwSchedule l
+      let s := if kind == "c" then compileSort l
+        else if kind.startsWith "w" then compileSortW ((kind.drop 1).toString.toNat?.getD 0) l
+        else gmwSchedule l
       let c2 : Circuit := { c with gates := s.map (·.1) }
-      s!"strict={strictFast c l};topo={(c2.absRun #[]).isSome};g={gatesStr (s.map (·.1))};c={bitsStr (c2.compute (parseBits x))}"
+      s!"strict={strictFast c l};topo={(c2.absRun #[]).isSome};g={gatesStr (s.map (·.1))};c={bitsStr (c2.computeArr (parseBits x))}"
     | _, _ => "bad-op"
+  | ["topo", _tag, nw, nin, nout, gates] =>
+    match parseCircuit nw nin nout gates with
+    | some c => s!"ssa={decide (c.nIn ≤ c.numWires) && (c.absRun #[]).isSome}"
+    | none => "bad-op"
+  | ["chain", _tag, k] =>
+    match k.toNat? with
+    | some k =>
+      let c := invChain (2 ^ k + 1)
+      let s := compileSortW k (c.gates.zip (List.range (2 ^ k + 1)))
+      let c2 : Circuit := { c with gates := s.map (·.1) }
+      s!"topo={(c2.absRun #[]).isSome};g={gatesStr (s.map (·.1))};c={bitsStr (c2.computeArr [true])};ref={bitsStr (c.computeArr [true])}"
+    | none => "bad-op"
   | _ => "bad-op"
 
 end Drv.C09
